@@ -256,6 +256,20 @@ func c05QueryKeys(model kv.Model, extra [][]byte) [][]byte {
 	return out
 }
 
+// c05NumIncr: the key read as a fixed-length big-endian number, plus one (what the range-proof code uses as
+// "next key"). Used ONLY to give recognised root causes a narrow signature, never as an oracle.
+func c05NumIncr(k []byte) []byte {
+	out := append([]byte{}, k...)
+	for i := len(out) - 1; i >= 0; i-- {
+		if out[i] < 0xff {
+			out[i]++
+			return out
+		}
+		out[i] = 0
+	}
+	return append(out, 0)
+}
+
 func c05AllFF(k []byte) bool {
 	for _, b := range k {
 		if b != 0xff {
@@ -308,14 +322,28 @@ func (w *c05World) query(q *c05Query, height int64) (ops []merkle.ProofOp, root 
 		sig := "C05/complete/existence-proof-rejected"
 		if !present {
 			sig = "C05/complete/absence-proof-rejected"
+			// narrow signatures for the two recognised causes (see report): the leaf the range proof starts from
+			// (predecessor of the key, or the first leaf) is all-0xFF / is a proper prefix of the queried key
 			keys := model.SortedKeys()
-			if r := sort.SearchStrings(keys, string(q.key)); r > 0 {
-				pred := []byte(keys[r-1])
+			if len(keys) > 0 {
+				r := sort.SearchStrings(keys, string(q.key))
+				left := []byte(keys[0])
+				if r > 0 {
+					left = []byte(keys[r-1])
+				}
+				next := -1 // index of the leaf after `left`
+				if r > 0 {
+					next = r
+				} else {
+					next = 1
+				}
 				switch {
-				case c05AllFF(pred):
-					sig = "C05/complete/absence-proof-rejected-predecessor-leaf-all-ff"
-				case r < len(keys) && bytes.HasPrefix(q.key, pred):
-					sig = "C05/complete/absence-proof-rejected-key-extends-predecessor-leaf"
+				case c05AllFF(left):
+					sig = "C05/complete/absence-proof-rejected-left-leaf-all-ff"
+				case r > 0 && r < len(keys) && bytes.Compare(c05NumIncr(left), c05NumIncr(q.key)) >= 0:
+					sig = "C05/complete/absence-proof-rejected-key-below-numeric-increment-of-predecessor-leaf"
+				case next < len(keys) && bytes.Compare([]byte(keys[next]), c05NumIncr(left)) < 0:
+					sig = "C05/complete/absence-proof-rejected-next-leaf-below-numeric-increment-of-left-leaf"
 				}
 			}
 		}
@@ -505,19 +533,19 @@ func (w *c05World) forge(q *c05Query, ops []merkle.ProofOp, root []byte) {
 
 func TestC05(t *testing.T) {
 	harness.Check(t, "C05",
-		"rootmulti.Store on MemDB with 1-3 IAVL substores; 1-4 committed blocks (first block bulk of 0..40 keys per store, later blocks sets / "+
+		"rootmulti.Store on MemDB with 1-3 IAVL substores; 2-5 committed blocks (first block bulk of 0..40 keys per store, later blocks sets / "+
 			"overwrites / deletes; keys 1-3 bytes over {a,b,c,00,fe} - in ~15% of the cases also ff); the harness records CommitID.Hash per version and a map "+
-			"snapshot per store and version. Completeness: for one drawn (version, store) EVERY present key and every derived absent key (before first, "+
+			"snapshot per store and version. Completeness: for one drawn (version >= 2, store) EVERY present key and every derived absent key (before first, "+
 			"after last, between neighbours, proper prefixes, extensions) and a sample for all other (version, store) pairs is queried through "+
 			"rootmulti.Store.Query(/<store>/key, Prove, Height): value must equal the snapshot and DefaultProofRuntime VerifyValue / VerifyAbsence must "+
-			"succeed against the recorded commit hash. Soundness: for 4 drawn queries the proof ops are decoded with the exported IAVL / rootmulti "+
+			"succeed against the recorded commit hash. Soundness: for 2 present and 2 absent drawn queries the proof ops are decoded with the exported IAVL / rootmulti "+
 			"types and EVERY single-field alteration (each leaf key / value hash / version; each inner node height / size / version / left / right hash / "+
 			"added second child hash; dropped / duplicated path node; dropped / swapped leaf; each store info hash / name / dropped; store name; dropped / "+
 			"swapped op) is re-encoded and must be rejected, as must the unchanged proof with altered root / other version's root / value / key / key path, "+
 			"existence offered as absence and vice versa, an absence proof replayed for every present key, and two forged proofs built from the "+
 			"second-child alteration. non-trivial = examined tree has >=3 leaves and a verified absent key strictly between two leaves or outside both ends",
 		map[string]float64{"absent-between": 0.5, "absent-before-first": 0.5, "absent-after-last": 0.5, "present": 0.7, "absent-empty-store": 0.1,
-			"single-key-store": 0.1, "two-leaf-absence-proof": 0.4, "height-0-query": 0.2, "ff-keys": 0.05, "forge-attempted": 0.3},
+			"single-key-store": 0.1, "two-leaf-absence-proof": 0.4, "ff-keys": 0.05, "forge-attempted": 0.25},
 		func(rt *rapid.T, c *harness.Case) {
 			w := &c05World{c: c, roots: map[int64][]byte{}, prt: rootmulti.DefaultProofRuntime()}
 			db := dbm.NewMemDB()
@@ -546,7 +574,7 @@ func TestC05(t *testing.T) {
 				}
 				return b
 			})
-			blocks := rapid.IntRange(1, 4).Draw(rt, "blocks")
+			blocks := rapid.IntRange(2, 5).Draw(rt, "blocks")
 			for b := 1; b <= blocks; b++ {
 				for _, s := range w.subs {
 					st := w.rs.GetKVStore(s.key)
@@ -593,7 +621,7 @@ func TestC05(t *testing.T) {
 
 			// focus pair: every key
 			fs := w.subs[rapid.IntRange(0, len(w.subs)-1).Draw(rt, "focus-store")]
-			fv := int64(rapid.IntRange(1, int(w.latest)).Draw(rt, "focus-version"))
+			fv := int64(rapid.IntRange(2, int(w.latest)).Draw(rt, "focus-version"))
 			model := fs.models[fv]
 			c.Opf("focus store %s v%d (%d keys)", fs.name, fv, len(model))
 			if len(model) == 1 {
@@ -633,9 +661,9 @@ func TestC05(t *testing.T) {
 			if len(model) >= 3 && (between || outside) {
 				c.NonTrivial()
 			}
-			// sample of the other (version, store) pairs, and the "height 0" convention (latest-1 if it exists)
+			// sample of the other (version, store) pairs (versions >= 2: baseapp refuses proofs at height <= 1)
 			for _, s := range w.subs {
-				for v := int64(1); v <= w.latest; v++ {
+				for v := int64(2); v <= w.latest; v++ {
 					if s == fs && v == fv {
 						continue
 					}
@@ -653,27 +681,21 @@ func TestC05(t *testing.T) {
 					}
 				}
 			}
-			{
-				hv := w.latest
-				if hv > 1 {
-					hv--
-				}
-				ks := c05QueryKeys(fs.models[hv], nil)
-				if len(ks) > 0 {
-					k := rapid.SampledFrom(ks).Draw(rt, "h0-key")
-					q := &c05Query{sub: fs, ver: hv, key: k, class: "height-0"}
-					if val, ok := fs.models[hv][string(k)]; ok {
-						q.value = val
-					}
-					c.Opf("height-0 query %x (expects v%d)", k, hv)
-					c.Label("height-0-query")
-					w.query(q, 0)
+			// soundness battery on 4 drawn verified queries: 2 present and 2 absent keys when available
+			var presentPool, absentPool []verified
+			for _, pv := range pool {
+				if pv.q.value != nil {
+					presentPool = append(presentPool, pv)
+				} else {
+					absentPool = append(absentPool, pv)
 				}
 			}
-			// soundness battery on 4 drawn verified queries
-			if len(pool) > 0 {
-				for i := 0; i < 4; i++ {
-					pv := pool[rapid.IntRange(0, len(pool)-1).Draw(rt, "sound-pick")]
+			for _, pl := range [][]verified{presentPool, absentPool} {
+				if len(pl) == 0 {
+					continue
+				}
+				for i := 0; i < 2; i++ {
+					pv := pl[rapid.IntRange(0, len(pl)-1).Draw(rt, "sound-pick")]
 					c.Opf("alter proof of %x (%s)", pv.q.key, pv.q.class)
 					w.soundness(pv.q, pv.ops, pv.root)
 				}
